@@ -196,6 +196,19 @@ def drop_rules(F, R):
     R.ob('FLOW', 'FLOW::%s::on-nodes' % fnkey(rn), len(adds) == 1 and rn.chain(adds[0].args[0]) == 'self.nodes', 'register_node_id adds to self.nodes', adds[0].where if adds else rn.file, rn)
 
 
+def decision_classes(F, enum_id):
+    """Variant -> arm target block of the match on `enum_id` in BuilderWithServiceType::open_or_create (the retry / return decision)."""
+    out = {}
+    for f in F.find_fns(r'^iceoryx2::service::builder::BuilderWithServiceType::<.*>::open_or_create$'):
+        for g in [f] + F.closures_of(f):
+            for b in range(len(g.blocks)):
+                si = g.switch_info(b)
+                if si and si.get('enum_ty') and si['enum_ty'].startswith(enum_id):
+                    for lab, tgt in lib.arm_blocks(g, b, lambda l: True, F):
+                        out[lab] = '%s#bb%d' % (g.name, tgt)
+    return out
+
+
 def error_conversions(F, R):
     """The error enums of the service builders are converted into one another (`impl From<XOpenError> for ServiceOpenError` and back, Create,
     OpenOrCreate ...).  The generic open/create/open_or_create protocol DECIDES on the converted value (retry on IsMarkedForDestruction,
@@ -213,6 +226,10 @@ def error_conversions(F, R):
         if not da or not sa or da['kind'] != 'enum' or sa['kind'] != 'enum':
             continue
         dvars = set(v['name'] for v in da['variants'])
+        # conversions INTO the generic enums (ServiceOpenError / ServiceCreateError) are only used by the generic protocol to decide between
+        # retry / do-not-create / return: what must be preserved is the decision class of a variant (the arm of the protocol's match it falls
+        # into), not its name.  Conversions into a pattern's error enum produce the value the user sees: the name is preserved exactly.
+        cls = decision_classes(F, dst) if dst in ('iceoryx2::service::builder::ServiceOpenError', 'iceoryx2::service::builder::ServiceCreateError') else None
         bad, total = [], 0
         for b in range(len(f.blocks)):
             si = f.switch_info(b)
@@ -223,11 +240,14 @@ def error_conversions(F, R):
                     continue
                 total += 1
                 names = sorted(set(a.node[2][1][2] for a in lib.agg_sites(f, '^' + re.escape(dst) + '$') if f.edge_dominates(b, tgt, a.b)))
-                if names != [lab]:
+                if cls is not None:
+                    if len(names) != 1 or cls.get(names[0]) != cls.get(lab) or cls.get(lab) is None:
+                        bad.append('%s -> %s (decision class %s -> %s)' % (lab, '|'.join(names) or '?', cls.get(lab), [cls.get(x) for x in names]))
+                elif names != [lab]:
                     bad.append('%s -> %s' % (lab, '|'.join(names) or '?'))
         if total:
             n += 1
-            R.ob('MATCH-MAP', 'MATCH-MAP::%s::from::%s::same-named-variants-map-to-themselves' % (core.short(dst), core.short(src)), not bad, '%d variant name(s) shared by %s and %s%s' % (total, core.short(src), core.short(dst), ' all map to themselves' if not bad else '; deviating: ' + ', '.join(bad)), '%s:%s' % (f.file, f.line), f)
+            R.ob('MATCH-MAP', 'MATCH-MAP::%s::from::%s::same-named-variants-map-to-themselves' % (core.short(dst), core.short(src)), not bad, '%d variant name(s) shared by %s and %s%s' % (total, core.short(src), core.short(dst), (' all map to themselves' if cls is None else ' all stay in their decision class of open_or_create') if not bad else '; deviating: ' + ', '.join(bad)), '%s:%s' % (f.file, f.line), f)
     R.floor('error conversions between builder error enums with shared variant names', n, 18)
 
 
